@@ -351,3 +351,28 @@ func (c *CustomPR) DecodeJSON(v any) error {
 
 	return nil
 }
+
+// Token is an interface whose implementers are NOT structs: a string, a number, a bool, a slice of numbers, a byte
+// slice and a map (plus one struct). Their type code is the only thing that tells them apart on the wire. The JSON form
+// has no typed representation for them, so values that contain a Token are not JSON-expressible.
+type Token interface{ TokenName() string }
+
+type (
+	TokName   string
+	TokNum    uint32
+	TokFlag   bool
+	TokList   []uint16
+	TokBytes  []byte
+	TokMap    map[uint8]uint16
+	TokStruct struct {
+		A uint8 `serix:""`
+	}
+)
+
+func (TokName) TokenName() string   { return "name" }
+func (TokNum) TokenName() string    { return "num" }
+func (TokFlag) TokenName() string   { return "flag" }
+func (TokList) TokenName() string   { return "list" }
+func (TokBytes) TokenName() string  { return "bytes" }
+func (TokMap) TokenName() string    { return "map" }
+func (TokStruct) TokenName() string { return "struct" }
